@@ -76,6 +76,7 @@ func (ex *Exec) RunPath(fn *ssa.Function) *PathResult {
 		delete(ex.inputSeq, k)
 	}
 	ex.knownVals = map[int]uint64{}
+	ex.varRange = map[int][2]uint64{}
 	ex.decMemo = map[int][]*sym.Term{}
 	ex.facts = map[int]bool{}
 	ex.pfVars, ex.pfText = nil, nil
